@@ -99,6 +99,12 @@ def run(ctx):
             # a server that offers a file wrapper (wsgiref's)
             from wsgiref.util import FileWrapper
             extra["wsgi.file_wrapper"] = FileWrapper
+        # validators a client may send with any request: what the handler
+        # hands back is what goes out, also when its ETag / date match them
+        if asked["n"] % 4 != 3:
+            extra["HTTP_IF_NONE_MATCH"] = '"v1", W/"w2"'
+            extra["HTTP_IF_MODIFIED_SINCE"] = \
+                "Fri, 01 Jan 2100 00:00:00 GMT"
         return call(app, environ(method=method, path="/r", extra=extra))
 
     def bad(key, detail, ans):
@@ -300,6 +306,9 @@ def run(ctx):
     try:
         for name in classes:
             subsets = [[], EXTRA, EXTRA[1:3], [("Content-Type", "x/own")],
+                       [("ETag", '"v1"'), ("Set-Cookie", "a=1"),
+                        ("Last-Modified", "Thu, 01 Jan 2026 00:00:00 GMT"),
+                        ("Set-Cookie", "b=2")],
                        [("Content-Length", "3"), ("X-One", "1")],
                        [("content-type", "x/lower")],
                        [("CONTENT-TYPE", "x/upper"), ("content-length", "4")],
